@@ -61,7 +61,7 @@ PROPS = {
     "C14": {
         "ops": [("fill2", FF, 10000, 300000), ("fill2", MIN, 3000, 60000)],
         "spot": ["fill"],
-        "explanation": "theorems C14_first_fit (fill(fill t) = fill t for first-fit, empty indents, ASCII separator, built-in splitters, break_words on/off, every width, both line endings, every text) and C14_optimal_fit (reference oracle, no overflowing line, ESC-free text); the Unicode-separator half is reduced to ONE computable per-text hypothesis about the linebreak oracle, refind_b (every first-pass line does not end in a space and is re-found, alone, as fragments fitting one line): C14_any_separator proves idempotence from it for both separators, C14_check_always_true_for_ascii shows it holds for every text under the ASCII separator, examples show it is not removable; L2: the extracted refind_b is evaluated on every case (true => the case is an instance of the theorem and the implementation must be idempotent on it), otherwise fill(fill(t)) = fill(t) is checked under the property's option conditions",
+        "explanation": "theorems C14_first_fit (fill(fill t) = fill t for first-fit, empty indents, ASCII separator, built-in splitters, break_words on/off, every width, both line endings, every text) and C14_optimal_fit (reference oracle, no overflowing line, ESC-free text); the Unicode-separator half is reduced to ONE computable per-text hypothesis about the linebreak oracle, refind_b (every first-pass line does not end in a space and is re-found, alone, as fragments fitting one line): C14_any_separator proves idempotence from it for both separators, C14_check_always_true_for_ascii shows it holds for every text under the ASCII separator, examples show it is not removable; C14_optimal_fit_any_separator does the same for optimal-fit (reference oracle, no overflowing line) with the computable hypothesis refind_opt_b and no condition on separator, oracle or escape sequences; L2: the extracted refind_b is evaluated on every case (true => the case is an instance of the theorem and the implementation must be idempotent on it), otherwise fill(fill(t)) = fill(t) is checked under the property's option conditions",
         "assumptions": ["reading of the optimal-fit clause as in DESIGN.md §6/C14"],
     },
     "C03": {
